@@ -1,5 +1,6 @@
 """C34 - programs with recursion through negation are never evaluated."""
 from ..core import CheckError, op_local, proj
+import re
 from . import common
 
 PARSE = "IQLEngine::parse"
@@ -137,6 +138,8 @@ def run(F, ctx):
     ctx.end_rule()
 
     # ---- d persistent registration
+    rule_graph_construction(F, ctx)
+
     ctx.rule("R-C34-d", "RuleCatalog::register_rule passes the whole-set stratification check on every success path", floor=1)
     g = F.fn(REGISTER)
     cs = g.calls_to(VRS)
@@ -144,4 +147,66 @@ def run(F, ctx):
     ctx.site("register_rule", g.where(), ok=ok, checks=len(cs))
     if not ok:
         ctx.violation("%s:R-C34-d:registration-unchecked" % REGISTER, "a success path of RuleCatalog::register_rule does not validate stratification of the resulting rule set", g.where(), detail="witness blocks: %s" % wit)
+    ctx.end_rule()
+
+
+def rule_graph_construction(F, ctx):
+    """R-C34-e: the negation-aware dependency graph records every body literal with its sign"""
+    from ..core import op_const, place_fields
+    ctx.rule("R-C34-e", "dependency graph construction is sign-preserving: Negated -> Negative edge, Positive -> Positive edge; add_edge records every edge (no sign-blind de-duplication)", floor=3)
+    b = F.fn("recursion::build_extended_dependency_graph")
+    sws = [s for s in b.enum_switches("ast::BodyPredicate") if "Negated" in s[3] and "Positive" in s[3]]
+    if not sws:
+        raise CheckError("build_extended_dependency_graph: no dispatch over BodyPredicate")
+    (bb, adt, pl, mm, other) = sws[0]
+    loops_stop = {bb}
+    for variant, want in (("Negated", "Negative"), ("Positive", "Positive")):
+        region = b.arm_region(list(mm.values()) + [other], mm[variant], stop=loops_stop)
+        adds = [c for c in b.normal_calls() if c.bb in region and c.resolved == "recursion::DependencyGraph::add_edge"]
+        ok = bool(adds)
+        for c in adds:
+            txt = (c.args[3].get("t") or "") if len(c.args) > 3 else ""
+            l = op_local(c.args[3]) if len(c.args) > 3 else None
+            if l is not None:
+                for o in common.origins(b, l):
+                    for i in range(b.n):
+                        for st in b.stmts(i):
+                            rv = st["r"]
+                            if st["d"]["l"] == o and rv.get("k") == "agg" and rv.get("adt") == "recursion::DependencyType":
+                                txt += " " + rv.get("var", "")
+            ok = ok and (want in txt) and not any(w in txt for w in ("Negative", "Positive") if w != want)
+        ctx.site("BodyPredicate::%s -> add_edge(.., DependencyType::%s)" % (variant, want), b.where(mm[variant]), ok=ok, calls=len(adds))
+        if not ok:
+            ctx.violation("recursion::build_extended_dependency_graph:R-C34-e:%s-edge" % variant.lower(), "a %s body atom is not recorded as a %s dependency edge: recursion through negation is not seen by the stratification check" % (variant.lower(), want), b.where(mm[variant]))
+    a = F.fn("recursion::DependencyGraph::add_edge")
+    dep = a.local_named("dep_type")
+    to_l = a.local_named("to")
+    pushes = [c for c in a.normal_calls() if re.search(r"Vec::<\(std::string::String, recursion::DependencyType\)>::push$", c.static_args or "")]
+    ok = bool(pushes) and dep is not None
+    if ok:
+        okp, wit = must_pass(a, [c.bb for c in pushes])
+        if not okp:
+            # a guard is tolerated only if it looks at the sign as well (exact-duplicate elimination)
+            sign_aware = False
+            for c in a.normal_calls():
+                br = common.branch_on_result(a, c)
+                if not br:
+                    continue
+                if any(op_local(x) in a.derive({dep}, through_calls=False) for x in c.args):
+                    sign_aware = True
+                for x in c.args:
+                    clo = x.get("clo")
+                    for i in range(a.n):
+                        for st in a.stmts(i):
+                            rv = st["r"]
+                            if rv.get("k") == "agg" and rv.get("ak") == "closure" and st["d"]["l"] in common.origins(a, op_local(x) or -1):
+                                clo = rv["def"]
+                    if clo and clo in F.bodies:
+                        g = F.fn(clo)
+                        if any(fld == "1" for (_b, _k, _a, fld, _l, _p) in g.field_accesses()):
+                            sign_aware = True
+            ok = sign_aware
+    ctx.site("add_edge records (to, dep_type) on every path (or skips exact duplicates only)", a.where(), ok=ok, pushes=len(pushes))
+    if not ok:
+        ctx.violation("recursion::DependencyGraph::add_edge:R-C34-e:edge-dropped", "add_edge can skip recording an edge without looking at its sign: a negative edge to a relation that already has a positive edge (or vice versa) is lost, and a cycle through negation is accepted", a.where())
     ctx.end_rule()
